@@ -951,6 +951,42 @@ impl TypeLayout {
         }
     }
 
+    /// Does `Self` occur anywhere in this type (also inside a list, map, optional or function type)?
+    pub fn mentions_class_self(&self) -> bool {
+        match self {
+            Self::ClassSelf(..) => true,
+            Self::Alias(_, ty) => ty.mentions_class_self(),
+            Self::CallbackVariable(cb) => cb.mentions_class_self(),
+            Self::Function(function) => {
+                function
+                    .return_type()
+                    .get_type()
+                    .is_some_and(|ty| ty.mentions_class_self())
+                    || function
+                        .parameters()
+                        .to_types()
+                        .iter()
+                        .any(|ty| ty.mentions_class_self())
+            }
+            Self::Generic(generic) => generic
+                .try_get_lock()
+                .is_some_and(|ty| ty.mentions_class_self()),
+            Self::List(ListType::Mixed(types)) => types.iter().any(|ty| ty.mentions_class_self()),
+            Self::List(ListType::Open(ty)) => ty.mentions_class_self(),
+            Self::Optional(Some(ty)) => ty.mentions_class_self(),
+            Self::Map(map_type) => {
+                map_type.key_type().mentions_class_self()
+                    || map_type.value_type().mentions_class_self()
+            }
+            Self::Class(..)
+            | Self::Optional(None)
+            | Self::Module(..)
+            | Self::Native(..)
+            | Self::Void
+            | Self::ValidIndexes(..) => false,
+        }
+    }
+
     pub fn update_all_references_to_class_self(&self, class_type: ClassType) -> TypeLayout {
         match self {
             Self::Alias(name, ty) => Self::Alias(
@@ -964,27 +1000,22 @@ impl TypeLayout {
             }
             Self::Function(function) => {
                 let mut new_function = function.clone();
-                let (is_return_type_class_self, is_return_type_optional) = {
+
+                // `Self` can stand anywhere in a signature (`-> [Self...]`, `map[str, Self]`,
+                // `fn(Self) -> Self?`), not only at the top of a parameter or of the return type
+                let new_return_type = {
                     // scoped because `try_set_return_type` borrows mutably
                     let return_type = function.return_type();
 
-                    if let Some(ty) = return_type.get_type() {
-                        (
-                            ty.disregard_distractors(true).is_class_self(),
-                            ty.disregard_distractors(false).is_optional().0,
-                        )
-                    } else {
-                        (false, false)
+                    match return_type.get_type() {
+                        Some(ty) if ty.mentions_class_self() => Some(Cow::Owned(
+                            ty.update_all_references_to_class_self(class_type.clone()),
+                        )),
+                        _ => None,
                     }
                 };
 
-                if is_return_type_class_self {
-                    let mut return_type = Cow::Owned(TypeLayout::Class(class_type.clone()));
-
-                    if is_return_type_optional {
-                        return_type = Cow::Owned(TypeLayout::Optional(Some(Box::new(return_type))))
-                    }
-
+                if let Some(return_type) = new_return_type {
                     let new_return_status = ScopeReturnStatus::Did(return_type);
 
                     new_function.try_set_return_type(new_return_status);
@@ -995,19 +1026,10 @@ impl TypeLayout {
                 let mut new_parameters = Vec::with_capacity(p.len());
 
                 for ty in p.to_types().iter() {
-                    let is_type_class_self = ty.disregard_distractors(true).is_class_self();
-                    if is_type_class_self {
-                        let is_type_optional = ty.disregard_distractors(false).is_optional().0;
-
-                        let class_self = Cow::Owned(TypeLayout::Class(class_type.clone()));
-
-                        let replacement = if is_type_optional {
-                            Cow::Owned(TypeLayout::Optional(Some(Box::new(class_self))))
-                        } else {
-                            class_self
-                        };
-
-                        new_parameters.push(replacement);
+                    if ty.mentions_class_self() {
+                        new_parameters.push(Cow::Owned(
+                            ty.update_all_references_to_class_self(class_type.clone()),
+                        ));
                     } else {
                         new_parameters.push(ty.clone());
                     }
